@@ -111,7 +111,7 @@ def mined_pools():
     return pools
 
 
-def renderings(rnd, pools=None):
+def renderings(rnd, pools=None, flood=0):
     from .render import Prober, tokenize
     from . import mine
     pr = Prober(rnd)
@@ -169,6 +169,29 @@ def renderings(rnd, pools=None):
                     out[('all:%s:%d' % (name, pi), err)] = pr.render(name, S, [err, 1, 2, 3], [b'/p']) or 'none'
                 except Exception as ex:
                     out[('all:%s:%d' % (name, pi), err)] = 'RAISED:' + type(ex).__name__
+    if flood:
+        # SCALE: tens of thousands of DISTINCT error words in one process (arbitrary words of cut or foreign traces), then
+        # every error number again: what was shown before must still be shown (a bounded memo trimmed by a host table ...)
+        from .pairing import new_parser
+        w = pr.w
+        p_ = new_parser(w)
+        k = 0
+        for word in range(200, 200 + flood):
+            k += 2
+            try:
+                p_.feed(w.concrete(w.sys('BSC_read', 1, 1, (3, 4, 5, 6)), k))
+                r = p_.feed(w.concrete(w.sys('BSC_read', 2, 1, (word * 7919 + (word << 33), 1, 2, 3)), k + 1))
+                str(r)
+            except Exception:
+                pass
+        for code in list(range(0, 111)):
+            try:
+                t = pr.render('BSC_read', [3, 4, 5, 6], [code, 1, 2, 3], [])
+                out[('errno_after_flood', code)] = tokenize(t)[2]
+                t = pr.render('BSC_pipe', [3, 4, 5, 6], [code, 1, 2, 3], [])
+                out[('errno_pipe_after_flood', code)] = tokenize(t)[2]
+            except Exception as ex:
+                out[('errno_after_flood', code)] = 'RAISED:' + type(ex).__name__
     for lvl in (1, 6, 0xffff):
         for name in ('BSC_setsockopt', 'BSC_getsockopt'):
             out[('level:' + name, lvl)] = param(name, [3, lvl, 0x80, 6], 1)
@@ -193,7 +216,7 @@ def run(ctx):
     pools = {n: {k: sorted(v) for k, v in u.items()} for n, u in pools.items()}
     for host in ('real', 'linux', 'darwin', 'other'):
         import_under(host)
-        per_host[host] = renderings(random.Random(ctx.seed), pools)
+        per_host[host] = renderings(random.Random(ctx.seed), pools, flood=70000)
     import_under('real')
     from . import mine
     mine.reset()
